@@ -732,3 +732,42 @@ Definition loop_y (fexp : Q -> Q) (gamma : vec -> vec) (v z : vec) (n : nat) (ph
 (* Rachford-Rice residual of (z, K, phi): what phase_fraction solves *)
 Definition rr_residual (z K : vec) (phi : Q) : Q :=
   qsum (map2 (fun zi k => zi * (k - 1) / (1 + phi * (k - 1))) z K).
+
+(* ------------------------------------------------------------------ thermo.Gamma(chemicals): class-level cache of activity-coefficient models
+   activity_coefficients.py GroupActivityCoefficients.__new__ (the cache-key equality [gamma_key_eqb] is translated from
+   the source).  A cached object carries the chemical order its per-chemical arrays were built for; LLE and SLE call it
+   with compositions in the order of THEIR request. *)
+Definition gcache := list (list nat).        (* cached objects in creation order, each with the order it was built for *)
+
+Inductive gres :=
+| GGroup (id : nat) (order : list nat)       (* a (cached) group-contribution object *)
+| GIdeal (order : list nat).                 (* fewer than two chemicals with groups: a new IdealActivityCoefficients *)
+
+Definition gres_order (r : gres) : list nat := match r with GGroup _ o => o | GIdeal o => o end.
+
+Fixpoint gfind (key : list nat) (c : gcache) (k : nat) : option (nat * list nat) :=
+  match c with
+  | [] => None
+  | o :: t => if gamma_key_eqb key o then Some (k, o) else gfind key t (S k)
+  end.
+
+Definition gamma_request (has_groups : nat -> bool) (c : gcache) (chems : list nat) : gcache * gres :=
+  match gfind chems c 0 with
+  | Some (k, o) => (c, GGroup k o)
+  | None =>
+    if Nat.leb (length (filter has_groups chems)) 1 then (c, GIdeal chems)
+    else (c ++ [chems], GGroup (length c) chems)
+  end.
+
+Fixpoint gamma_run (has_groups : nat -> bool) (c : gcache) (reqs : list (list nat)) : list gres :=
+  match reqs with
+  | [] => []
+  | r :: rest => let '(c', g) := gamma_request has_groups c r in g :: gamma_run has_groups c' rest
+  end.
+
+Definition gres_eqb (a b : gres) : bool :=
+  match a, b with
+  | GGroup i o, GGroup j p => Nat.eqb i j && idx_eqb o p
+  | GIdeal o, GIdeal p => idx_eqb o p
+  | _, _ => false
+  end.
